@@ -268,6 +268,18 @@ def finite_report(model, X, y, name):
     s = model.score(X, y)
     if not np.isfinite(s):
         bad.append("score")
+    # batches of one sample and duplicated samples are among the stated families: the score of such a batch of the SAME data must be a
+    # finite number too (one row per predicted cluster, so that clusters with a lower number are absent from the batch; one row repeated)
+    if name.startswith("Categorical"):
+        return bad          # nonparametric: the model IS the assignment of the training samples, there is no other batch to score
+    Xa = np.asarray(X)
+    lab = np.asarray(model.predict(X))
+    rows = [int(np.flatnonzero(lab == v)[0]) for v in np.unique(lab)][-3:]
+    for idx in [[r] for r in rows] + [[rows[-1]] * 5]:
+        ys = None if y is None else np.asarray(y)[np.ix_(idx, idx)]
+        s = model.score(Xa[idx], ys)
+        if not np.isfinite(s):
+            bad.append(f"score of the sub-batch of rows {idx}")
     return bad
 
 
